@@ -1,5 +1,5 @@
 """C07 — Clone and clone_from reproduce the source value field by field."""
-import time
+import os, time
 from .. import common, gen, b1
 from .c03 import pair_loop
 
@@ -91,9 +91,54 @@ class P(b1.Plugin):
         return r
 
 
+GENERIC_COPY = [
+    "#[educe(Clone, Copy)] pub enum E%d<T> { A(T), B { x: T, y: u8 }, C }",
+    "#[educe(Copy, Clone)] pub enum E%d<T> { A(#[educe(Clone(method(crate::m_clone)))] T), B(u8) }",
+    "#[educe(Clone(bound(*)), Copy)] pub enum E%d<T, U> { A(#[educe(Clone(method(crate::m_clone)))] T, U), B }",
+    "#[educe(Copy, Clone(bound(*)))] pub enum E%d<T, const N: usize> { A([T; N]), B { #[educe(Clone(method = crate::m_clone))] x: T } }",
+    "#[educe(Clone, Copy)] pub struct E%d<'a, T, U>(pub &'a T, pub U, pub ::core::marker::PhantomData<T>);",
+    "#[educe(Clone(bound(*)), Copy)] pub struct E%d<T, U>(pub T, pub Option<U>);",
+    "#[educe(Clone, Copy)] pub union E%d<T: Copy> { pub a: T, pub b: [u8; 4] }",
+    "#[educe(Copy, Clone(bound(*)))] pub union E%d<T> where T: Copy { pub a: T, pub b: u8 }",
+]
+
+
+def generic_copy_tie(tie):
+    """`When Copy is educed as well the type is Copy`: generic definitions (custom clone methods, bound(*)) must compile,
+    and values of an instantiation with Copy arguments must be usable after a move"""
+    from . import c01
+    so = common.build_proc_macro()
+    work = common.scratch("C07g")
+    lines = ["#![allow(warnings)]", "use educe::Educe;", "pub fn m_clone<X>(x: &X) -> X { unsafe { ::core::ptr::read(x) } }", "fn is_copy<X: Copy>() {}"]
+    line_map, by_id = [], {}
+    for i, t in enumerate(GENERIC_COPY):
+        src = "#[derive(Educe)]\n" + (t % i)
+        args = "u8, u8" if "<T, U>" in t or "'a, T, U" in t else ("u8, 2" if "const N" in t else "u8")
+        args = ("'static, " + args) if "'a" in t else args
+        text = "pub mod g%d { use educe::Educe;\n%s\npub fn probe() { super::is_copy::<E%d<%s>>(); }\n}" % (i, src, i, args)
+        start = sum(x.count("\n") + 1 for x in lines) + 1
+        lines.append(text)
+        line_map.append((start, start + text.count("\n"), i))
+        by_id[i] = src
+    path = os.path.join(work, "generic_copy.rs")
+    open(path, "w").write("\n".join(lines) + "\n")
+    rc, diags = c01.compile_lib(path, so)
+    import collections
+    hist = collections.Counter()
+    c01.judge([d for d in diags if d["level"] == "error"], line_map, by_id, "generic Copy definitions", tie, hist)
+    tie["evaluations"] += len(GENERIC_COPY)
+    tie["extra"]["generic_copy_definitions"] = len(GENERIC_COPY)
+    import shutil
+    shutil.rmtree(work, ignore_errors=True)
+
+
 def main(tier):
     t0 = time.time()
     proof = common.proof_obligations("C07")
     n_defs, cap_vals, cap_pairs = (200, 10, 120) if tier == "quick" else (2000, 30, 600)
     tie = b1.run_b1("C07", P(cap_pairs), n_defs, cap_vals, common.seed())
+    try:
+        generic_copy_tie(tie)
+    except (common.BuildError, OSError) as e:
+        tie["broken"].append("harness: " + str(e)[:300])
     return common.finish("C07", tier, t0, proof, tie)
